@@ -4,6 +4,7 @@ import (
 	"fmt"
 	"strings"
 	"testing"
+	"time"
 
 	"pgregory.net/rapid"
 
@@ -56,7 +57,16 @@ func (c *Ctx) c14Program(s *Sub, sub, src string, nProbes int, enum bool, labels
 
 func TestC14(t *testing.T) {
 	Main(t, "C14", func(c *Ctx) {
-		c.OnReplay("order", func(s *Sub, rp *Replay) { c.c14Program(s, "replay", rp.Source, 2, false) })
+		c.OnReplay("order", func(s *Sub, rp *Replay) {
+			if rp.Stdin == "" {
+				c.c14Program(s, "replay", rp.Source, 2, false)
+				return
+			}
+			mc := c.runModelCase(s, rp.Source, rp.Stdin, model.Options{MaxSteps: 20000}, judgeOpts{checkLine: true})
+			if mc.Sig != "" {
+				s.Violation(mc.replay("order"))
+			}
+		})
 		c.ReplayTier()
 		P := bn.KwPrint
 
@@ -266,6 +276,53 @@ func TestC14(t *testing.T) {
 			}
 			b.WriteString(P + " \"end\";\n")
 			c.c14Program(s, "selector-chains", place(c14Prelude[:strings.Index(c14Prelude, bn.KwVar+" x")]+b.String(), drawPlacement(rt)), 3, false, "selector-chains")
+		})
+		// a prompt written by ইনপুট is a side effect like a printed tag: it appears where reading order puts it among
+		// the prints of the other operands, and each call takes the next line
+		c.Sub("prompt-probes", func(s *Sub) {
+			I := func(k int) string { return fmt.Sprintf("%s(\"p%d> \")", bn.BInput, k) }
+			ctxs := []string{
+				P + " t1() + " + I(2) + ";\n",
+				P + " " + I(1) + " + t2();\n",
+				P + " [t1(), " + I(2) + ", t3()];\n",
+				P + " {a: " + I(1) + ", b: t2(), c: " + I(3) + "};\n",
+				P + " " + I(1) + " " + bn.KwOr + " t2();\n",
+				P + " t1() " + bn.KwAnd + " " + I(2) + ";\n",
+				P + " id3(t1(), " + I(2) + ", t3());\n",
+				P + " id2(" + I(1) + ", " + I(2) + ");\n",
+				"x = " + I(1) + ";\n" + P + " t2();\n" + P + " x;\n",
+				P + " \"shown first\";\n" + P + " " + I(1) + ";\n",
+				P + " t1();\n" + P + " " + I(2) + " + \"|\" + " + I(3) + ";\n",
+				bn.KwFor + " (" + bn.KwVar + " i = 0; i < 2; i = i + 1) { " + P + " t1(); " + P + " " + I(2) + "; }\n",
+				"arr[t1()] = " + I(2) + ";\n" + P + " arr;\n",
+				P + " " + bn.BLen + "([t1(), " + I(2) + "]);\n",
+			}
+			var k int64
+			for _, cx := range ctxs {
+				for _, a := range []int{0, 3, 5, 8} {
+					k++
+					if !c.Mine(k) {
+						continue
+					}
+					src := c14Prelude + c14Probe(1, c14Vals[a]) + c14Probe(2, c14Vals[5]) + c14Probe(3, c14Vals[8]) + cx + P + " \"end\";\n"
+					mc := c.runModelCase(s, src, "one\n two \nthree\nfour\n", model.Options{MaxSteps: 20000}, judgeOpts{checkLine: true})
+					if mc.Res.Outcome == model.OverBudget {
+						continue
+					}
+					c.Ev.EnumCase("prompt-probes", true, func() string { return src }, "ctx-prompt", "outcome-"+mc.Res.Outcome.String())
+					if mc.Sig != "" {
+						s.Violation(mc.replay("order"))
+					}
+					// and through the executable with its output in a pipe
+					if k%3 == 0 && mc.Res.Outcome != model.Unspecified {
+						cr := c.CLIScript(src, "one\n two \nthree\nfour\n", 30*time.Second)
+						if ok, why := model.CompareStdout(mc.Res, cr.Stdout); !ok {
+							s.Violation(Replay{Check: "order", Sig: "prompt-order-cli", Source: src, Stdin: "one\n two \nthree\nfour\n", Note: "through the executable: " + why, Observed: fmt.Sprintf("status=%d stdout=%q", cr.Status, clip(cr.Stdout, 400))})
+						}
+					}
+				}
+			}
+			c.Ev.MarkExhaustive(fmt.Sprintf("%d contexts mixing printed tags and input prompts x 4 probe values", len(ctxs)))
 		})
 		c.Rapid("rand-nested", n, func(rt *rapid.T, s *Sub) {
 			np := rapid.IntRange(2, 8).Draw(rt, "probes")
